@@ -5667,6 +5667,10 @@ class PyCdlib:
                           geometry_sectors, geometry_heads, part_type)
         self.isohybrid_mbr = isohybrid_mbr
 
+        # The boot file address (and the EFI/Mac partitions) in the hybrid MBR
+        # are filled in when the extents are assigned.
+        self._finish_add(0, 0)
+
     def rm_isohybrid(self):
         # type: () -> None
         """
